@@ -194,7 +194,7 @@ def check_stale_loop_variables(run, A, module_prefixes, rule='R-STALE'):
 def check_argument_names(run, A, module_prefixes, rule='R-ARGNAME'):
     """a variable that carries the name of parameter q of the callee is not handed over as a different parameter p of the same callee
     (`f(target_psd_matrix=noise_psd_matrix)`, or the two swapped positionally): 246 name-to-parameter bindings of the reference tree, none crossed"""
-    from .model import Func
+    from .model import Func, Lib, Mod
     methods = {}
     for f in A.prog.all_funcs():
         if f.cls is not None:
@@ -212,6 +212,11 @@ def check_argument_names(run, A, module_prefixes, rule='R-ARGNAME'):
                 if isinstance(r, Func):
                     cal = r
             elif isinstance(c.func, ast.Attribute) and methods.get(c.func.attr):
+                recv = c.func.value
+                if isinstance(recv, ast.Name):
+                    r = A.prog.lookup(fn.mod, recv.id)
+                    if isinstance(r, (Lib, Mod)) and not any(isinstance(x, (ast.Name,)) and x.id == recv.id and isinstance(x.ctx, ast.Store) for x in ast.walk(fn.node)):
+                        continue          # np.multiply(...): a library function, not the method of the same name
                 if len({tuple(m.posonly + m.args + m.kwonly) for m in methods[c.func.attr]}) == 1:
                     cal = methods[c.func.attr][0]
                     skip = 0 if cal.is_static else 1
@@ -225,6 +230,8 @@ def check_argument_names(run, A, module_prefixes, rule='R-ARGNAME'):
                     break
                 if i < len(params) and isinstance(a, ast.Name):
                     bound[params[i]] = a.id
+            if any(k.arg and k.arg not in allp for k in c.keywords):
+                continue          # a keyword the candidate callee does not have: not this callee
             for k in c.keywords:
                 if k.arg and isinstance(k.value, ast.Name):
                     bound[k.arg] = k.value.id
